@@ -23,7 +23,7 @@ MEMBERS = ("lexgen", "lexgen_util", "char_range_gen", "lexgen_lalrpop_example")
 # crate name -> minimum number of fact files expected (lib + test builds)
 EXPECTED = {
     "lexgen": 2, "lexgen_util": 1, "char_range_gen": 1,
-    "tests": 1, "bugs": 1, "right_ctx": 1, "lua_5_1": 1,
+    "tests": 1, "bugs": 1, "right_ctx": 1, "lua_5_1": 1, "lexgen_lalrpop_example": 1,
 }
 
 
@@ -89,7 +89,7 @@ def tree_key(repo):
     h = hashlib.sha256()
     h.update(repo.encode())
     _hash_files(h, repo, source_files(repo))
-    _hash_files(h, VERIF, ["tools/mirdump/src/main.rs"])
+    _hash_files(h, VERIF, ["tools/mirdump/src/main.rs", "lexlint/facts.py"])
     return h.hexdigest()[:20]
 
 
@@ -171,7 +171,8 @@ def repo_facts(log=None):
         env.pop("MIRDUMP_NAME", None)
         t0 = time.time()
         cmd = ["cargo", "+nightly", "check", "--offline", "-p", "lexgen", "-p", "lexgen_util",
-               "-p", "char_range_gen", "--lib", "--bins", "--tests", "--message-format=json"]
+               "-p", "char_range_gen", "-p", "lexgen_lalrpop_example", "--lib", "--bins", "--tests",
+               "--message-format=json"]
         try:
             r = subprocess.run(cmd, cwd=repo, env=env, stdout=subprocess.PIPE,
                                stderr=subprocess.PIPE, universal_newlines=True, timeout=1500)
